@@ -65,50 +65,24 @@ func ruleSwitchDefault(p *Program, r *Reporter) {
 				if !ok {
 					continue
 				}
-				// argument derives from field Block of a CaseExpression
+				// argument derives from field Block of a CaseExpression; where it
+				// was read (at the call, or earlier when the arms are first sorted
+				// into lists) decides what is known about the arm
 				isCaseBlock := false
-				var caseVal ssa.Value
+				var readAt []*ssa.BasicBlock
 				for _, o := range outerOrigins(c.Call.Args[1]) {
 					if u, ok := o.(*ssa.UnOp); ok && u.Op == token.MUL {
 						if k := fieldKey(u.X); k == "ast.CaseExpression.Block" {
 							isCaseBlock = true
-							if fa, ok := u.X.(*ssa.FieldAddr); ok {
-								caseVal = fa.X
-							}
+							readAt = append(readAt, u.Block())
 						}
 					}
 				}
 				if !isCaseBlock {
 					continue
 				}
-				// dominated by the true edge of a load of X.Default ?
-				underDefault := false
-				for d := b; d.Idom() != nil; d = d.Idom() {
-					iff, ok := terminator(d.Idom()).(*ssa.If)
-					if !ok {
-						continue
-					}
-					cond, neg := iff.Cond, false
-					if u, ok := cond.(*ssa.UnOp); ok && u.Op == token.NOT {
-						cond, neg = u.X, true
-					}
-					ld, ok := cond.(*ssa.UnOp)
-					if !ok || ld.Op != token.MUL || fieldKey(ld.X) != "ast.CaseExpression.Default" {
-						continue
-					}
-					onTrue := d.Idom().Succs[0] == d
-					if neg {
-						onTrue = !onTrue
-					}
-					if onTrue {
-						underDefault = true
-					}
-				}
-				_ = caseVal
-				if !underDefault {
-					// a block compiled without knowing it is not the default: is there a
-					// dominating "not default" test?
-					notDefault := false
+				// dominated by the true / false edge of a load of X.Default ?
+				classify := func(b *ssa.BasicBlock) (under, not bool) {
 					for d := b; d.Idom() != nil; d = d.Idom() {
 						iff, ok := terminator(d.Idom()).(*ssa.If)
 						if !ok {
@@ -122,14 +96,31 @@ func ruleSwitchDefault(p *Program, r *Reporter) {
 						if !ok || ld.Op != token.MUL || fieldKey(ld.X) != "ast.CaseExpression.Default" {
 							continue
 						}
+						onTrue := d.Idom().Succs[0] == d
 						onFalse := d.Idom().Succs[1] == d
 						if neg {
-							onFalse = !onFalse
+							onTrue, onFalse = onFalse, onTrue
+						}
+						if onTrue {
+							under = true
 						}
 						if onFalse {
-							notDefault = true
+							not = true
 						}
 					}
+					return
+				}
+				underDefault, notDefault := classify(b)
+				if !underDefault && !notDefault && len(readAt) > 0 {
+					underDefault, notDefault = true, true
+					for _, rb := range readAt {
+						u2, n2 := classify(rb)
+						underDefault = underDefault && u2
+						notDefault = notDefault && n2
+					}
+				}
+				if !underDefault {
+					// a block compiled without knowing it is not the default
 					if !notDefault {
 						n++
 						r.Undecided(siteKey(p, fn, c.Pos(), "case block compiled"), p.Pos(c.Pos()), "a case block is compiled at a point where it is not known whether it is the default arm")
